@@ -11,7 +11,10 @@ Definition wf_case (c : case) : bool :=
   | Eh n k input nonce soln t _ =>
       (n <? 2 ^ 32) && (k <? 2 ^ 32) && is_bytes input && is_bytes nonce && is_bytes soln &&
       forallb (fun e => is_bytes (snd e)) t &&
-      (if params_okb n k && (nlen soln =? soln_len n k)
-       then forallb (fun i => digest_okb n (lookup t (i / (512 / n)))) (soln_indices n k soln)
+      (* nested [if]s: [&&] would evaluate [soln_len] (a power of two) for absurd [k] *)
+      (if params_okb n k
+       then if nlen soln =? soln_len n k
+            then forallb (fun i => digest_okb n (lookup t (i / (512 / n)))) (soln_indices n k soln)
+            else true
        else true)
   end.
